@@ -29,3 +29,12 @@ __CPROVER_assigns(g_qcalls)
 __CPROVER_ensures(g_qcalls == 1)                                                  /*@ob C04.queue-operation-forwarded-exactly-once */
 ;
 #endif
+#if UNIT_DEFAULT_CELL
+/* the default dispatch-table cells: call_no_transition, call_no_transition_internal, default_eventless_transition.
+   They answer "not handled" and change nothing; do_process_event / process_completion_event decide from that answer
+   whether no_transition() is called (units <be>.do_process_event, <be>.process_completion_event). */
+HandledEnum default_cell(fsm_t* fsm, int region, int state, event_t evt)
+__CPROVER_assigns()                                                                                          /*@ob C06,C01.a-default-cell-changes-nothing */
+__CPROVER_ensures((int)__CPROVER_return_value == HANDLED_FALSE)                                              /*@ob C06,C01,C10.a-default-cell-answers-not-handled */
+;
+#endif
